@@ -19,6 +19,9 @@ def run(ctx):
     # glue (E): every reachable state of the abstract global Time Warp machine satisfies Hist (Props/C01Glue.lean)
     runlib.lean_part(ctx, "RootSim.Props.C01Glue", ['RootSim.C01Glue.reachable_hist','RootSim.C01Glue.tw_schedule_independent','RootSim.C01Glue.tw_quiescent_final'])
     runlib.lean_part(ctx, "RootSim.Props.C01GlueV2", ['RootSim.C01GlueV2.tw_schedule_independent_V2'])
+    # schedule independence instantiated for the GenModel family (strict mode on the content-level machine, both modes on the machine
+    # with the code's straggler rule), from the relativised contracts the family really satisfies (Props/GenModelContract.lean)
+    runlib.lean_part(ctx, "RootSim.Props.GenModelContract", ['RootSim.GenModelContract.genmodel_V2s','RootSim.GenModelContract.genmodel_V2','RootSim.GenModelContract.genmodel_tw_schedule_independent','RootSim.GenModelContract.genmodel_fwd_tw_schedule_independent_D','RootSim.GenModelContract.v2sOn_tw_schedule_independent','RootSim.GenModelContract.v2On_tw_schedule_independent_D'])
     if not runlib.build(ctx):
         return
     # metamorphic matrix: the SAME model+seed under different (threads, ckpt, period, schedule); all final states must be equal
